@@ -70,6 +70,15 @@ static void pr_val(const char *key, const val_t *a, long n)
 {
     pr_real(key, (const real_t *) a, n * NV);
 }
+static void pr_val(const char *key, const val_t *a, long n);
+/* the logical nrow x ncol content of a dense matrix stored with leading dimension lda, printed column after column */
+static void pr_packed(const char *key, const val_t *a, long nrow, long ncol, long lda)
+{
+    val_t *t = (val_t *) malloc(sizeof(val_t) * (nrow * ncol + 1));
+    for (long j = 0; j < ncol; ++j) for (long i = 0; i < nrow; ++i) t[j * nrow + i] = a[j * lda + i];
+    pr_val(key, t, nrow * ncol);
+    free(t);
+}
 static void pr_int(const char *key, const int_t *a, long n)
 {
     long i; fprintf(out, "#R %s", key);
@@ -142,15 +151,15 @@ void WRAP(gsrfs)(trans_t trans, SuperMatrix *A, SuperMatrix *L, SuperMatrix *U, 
     DNformat *Xs = X->Store, *Bs = B->Store;
     if (!quiet) {
         fprintf(out, "#R ev gsrfs_in %d %d %ld\n", (int) trans, (int) equed, (long) B->ncol);
-        if (Xs->lda == X->nrow) pr_val("ev gsrfs_X0", (val_t *) Xs->nzval, (long) X->nrow * X->ncol);
-        if (Bs->lda == B->nrow) pr_val("ev gsrfs_B", (val_t *) Bs->nzval, (long) B->nrow * B->ncol);
+        pr_packed("ev gsrfs_X0", (val_t *) Xs->nzval, X->nrow, X->ncol, Xs->lda);
+        pr_packed("ev gsrfs_B", (val_t *) Bs->nzval, B->nrow, B->ncol, Bs->lda);
     }
     ctx_gsrfs = 1;
     REAL(gsrfs)(trans, A, L, U, perm_r, perm_c, equed, R, C, B, X, ferr, berr, Gstat, info);
     ctx_gsrfs = 0;
     if (!quiet) {
         fprintf(out, "#R ev gsrfs_out %ld\n", (long) *info);
-        if (Xs->lda == X->nrow) pr_val("ev gsrfs_X1", (val_t *) Xs->nzval, (long) X->nrow * X->ncol);
+        pr_packed("ev gsrfs_X1", (val_t *) Xs->nzval, X->nrow, X->ncol, Xs->lda);
         pr_real("ev gsrfs_ferr", ferr, B->ncol);
         pr_real("ev gsrfs_berr", berr, B->ncol);
     }
@@ -203,7 +212,7 @@ int_t __wrap_sp_dtrsv(char *uplo, char *trans, char *diag, SuperMatrix *L, Super
 /* ------------------------------------------------------------------ case input */
 typedef struct {
     char id[128];
-    long n, nnz, nrhs, stype, trans, fact, nprocs, permc, dirty, equed_in;
+    long n, nnz, nrhs, stype, trans, fact, nprocs, permc, dirty, equed_in, ldb, ldx;   /* ldb, ldx: leading dimensions of B, X (0 = n) */
     double u;
     int_t *ptr, *ind; val_t *val, *b; double *xpert, *apert;
     double *M;             /* lacon mode: dense n x n operator, row major */
@@ -238,6 +247,8 @@ static int read_case(vcase *c)
         else if (!strcmp(key, "nprocs")) c->nprocs = rd_i();
         else if (!strcmp(key, "permc")) c->permc = rd_i();
         else if (!strcmp(key, "dirty")) c->dirty = rd_i();
+        else if (!strcmp(key, "ldb")) c->ldb = rd_i();
+        else if (!strcmp(key, "ldx")) c->ldx = rd_i();
         else if (!strcmp(key, "u")) c->u = rd_f();
         else if (!strcmp(key, "ptr")) { c->ptr = malloc(sizeof(int_t) * (c->n + 1)); for (long i = 0; i <= c->n; ++i) c->ptr[i] = rd_i(); }
         else if (!strcmp(key, "ind")) { c->ind = malloc(sizeof(int_t) * (c->nnz + 1)); for (long i = 0; i < c->nnz; ++i) c->ind[i] = rd_i(); }
@@ -305,7 +316,8 @@ static void run_ssvx(vcase *c)
     int_t *perm_c = malloc(sizeof(int_t) * (n + 1)), *perm_r = malloc(sizeof(int_t) * (n + 1));
     real_t *R = calloc(n + 1, sizeof(real_t)), *C = calloc(n + 1, sizeof(real_t));
     real_t *ferr = calloc(nrhs + 1, sizeof(real_t)), *berr = calloc(nrhs + 1, sizeof(real_t));
-    val_t *xm = malloc(sizeof(val_t) * (n * nrhs + 1));
+    val_t *xm = malloc(sizeof(val_t) * (n * nrhs + 1)), *bp = NULL, *xp = NULL;
+    long ldb_ = 0, ldx_ = 0;
     real_t rpg = -777, rcond = -777;
     equed_t equed = NOEQUIL;
     superlumt_options_t o;
@@ -319,8 +331,16 @@ static void run_ssvx(vcase *c)
         P(Create_CompCol_Matrix)(&A, n, n, c->nnz, c->val, c->ind, c->ptr, SLU_NC, (NV == 1 ? (sizeof(real_t) == 4 ? SLU_S : SLU_D) : (sizeof(real_t) == 4 ? SLU_C : SLU_Z)), SLU_GE);
     else
         P(Create_CompRow_Matrix)(&A, n, n, c->nnz, c->val, c->ind, c->ptr, SLU_NR, (NV == 1 ? (sizeof(real_t) == 4 ? SLU_S : SLU_D) : (sizeof(real_t) == 4 ? SLU_C : SLU_Z)), SLU_GE);
-    P(Create_Dense_Matrix)(&B, n, nrhs, c->b, n, SLU_DN, A.Dtype, SLU_GE);
-    P(Create_Dense_Matrix)(&X, n, nrhs, xm, n, SLU_DN, A.Dtype, SLU_GE);
+    {   /* B and X with their own leading dimensions; the rows n..ld-1 of every column hold a sentinel */
+        long ldb = c->ldb > n ? c->ldb : n, ldx = c->ldx > n ? c->ldx : n, j;
+        bp = (val_t *) malloc(sizeof(val_t) * (ldb * nrhs + 1)); xp = (val_t *) malloc(sizeof(val_t) * (ldx * nrhs + 1));
+        for (i = 0; i < ldb * nrhs * NV; ++i) ((real_t *) bp)[i] = (real_t) 781.25;
+        for (i = 0; i < ldx * nrhs * NV; ++i) ((real_t *) xp)[i] = (real_t) 781.25;
+        for (j = 0; j < nrhs; ++j) { memcpy(bp + j * ldb, c->b + j * n, sizeof(val_t) * n); memcpy(xp + j * ldx, xm + j * n, sizeof(val_t) * n); }
+        P(Create_Dense_Matrix)(&B, n, nrhs, bp, ldb, SLU_DN, A.Dtype, SLU_GE);
+        P(Create_Dense_Matrix)(&X, n, nrhs, xp, ldx, SLU_DN, A.Dtype, SLU_GE);
+        ldb_ = ldb; ldx_ = ldx;
+    }
     get_perm_c(c->permc, &A, perm_c);
 
     memset(&o, 0, sizeof o);
@@ -337,6 +357,18 @@ static void run_ssvx(vcase *c)
     L.Store = U.Store = NULL;
     PP(gssvx)(c->nprocs, &o, &A, perm_c, perm_r, &equed, R, C, &L, &U, &B, &X, &rpg, &rcond, ferr, berr, &mu, &info);
     logvec = 0;
+    {   /* back to the packed arrays the rest of this function (and the python side) works with; padding must be untouched */
+        long j, bad = 0;
+        for (j = 0; j < nrhs; ++j) { memcpy(c->b + j * n, bp + j * ldb_, sizeof(val_t) * n); memcpy(xm + j * n, xp + j * ldx_, sizeof(val_t) * n); }
+        for (j = 0; j < nrhs; ++j) {
+            for (i = n * NV; i < ldb_ * NV; ++i) if (((real_t *) (bp + j * ldb_))[i] != (real_t) 781.25) ++bad;
+            for (i = n * NV; i < ldx_ * NV; ++i) if (((real_t *) (xp + j * ldx_))[i] != (real_t) 781.25) ++bad;
+        }
+        fprintf(out, "#R padbad %ld\n", bad);
+        /* from here on B and X are the packed copies */
+        ((DNformat *) B.Store)->nzval = c->b; ((DNformat *) B.Store)->lda = n;
+        ((DNformat *) X.Store)->nzval = xm; ((DNformat *) X.Store)->lda = n;
+    }
     fprintf(out, "#R info %ld\n#R equed %d\n#R rcond %a\n#R rpg %a\n", (long) info, (int) equed, (double) rcond, (double) rpg);
     pr_real("R", R, n); pr_real("C", C, n);
     pr_val("Aval", c->val, c->nnz);
@@ -414,7 +446,7 @@ static void run_ssvx(vcase *c)
     }
     fprintf(out, "#R end\n");
     fflush(out);
-    free(perm_c); free(perm_r); free(R); free(C); free(ferr); free(berr); free(xm);
+    free(perm_c); free(perm_r); free(R); free(C); free(ferr); free(berr); free(xm); free(bp); free(xp);
     free(o.etree); free(o.colcnt_h); free(o.part_super_h);
     /* L, U and the SuperMatrix headers are left to the process exit (one process per batch) */
 }
